@@ -55,6 +55,9 @@ type Frame struct {
 	vacDone  map[int]bool
 	loops    []*loopCtx
 	callResults map[string]Val
+	curSite    string    // "Name#K" of the call being executed in the top frame
+	curInstr   *ssa.Call // its instruction
+	iters      map[string]iterInfo
 	curMode    string // contract mode selected for the call being executed (`at F K mode M`)
 	isoLoops   map[*ssa.BasicBlock][2]int // isolated loop header -> hidden assertion range
 	loopFrames map[*ssa.BasicBlock]*loopFrame
@@ -634,7 +637,11 @@ func (s *Session) enterBlock(fr *Frame, b *ssa.BasicBlock) *State {
 					for _, l := range lm[n] {
 						excl += fmt.Sprintf(" (not (= %s %s))", r, l.ref.S)
 					}
-					ax := fmt.Sprintf("(forall ((%s Int)) (! (=> (and (<= %s %s)%s) (= (select %s %s) (select %s %s))) :pattern ((select %s %s))))", r, r, topEntry.S, excl, after.S, r, before.S, r, after.S, r)
+					bound := fmt.Sprintf("(<= %s %s)", r, topEntry.S)
+					if strings.HasPrefix(n, "X:") {
+						bound = "true" // ghost maps are not indexed by allocation order
+					}
+					ax := fmt.Sprintf("(forall ((%s Int)) (! (=> (and %s%s) (= (select %s %s) (select %s %s))) :pattern ((select %s %s))))", r, bound, excl, after.S, r, before.S, r, after.S, r)
 					s.assume(T{ax, SBool})
 				}
 				continue
@@ -1843,7 +1850,7 @@ func (s *Session) loopFrameObligations(fr *Frame, lf *loopFrame, st *State, cond
 	}
 	sort.Strings(names)
 	for _, n := range names {
-		if strings.HasPrefix(n, "X:") || strings.HasPrefix(n, "G:") {
+		if strings.HasPrefix(n, "G:") || strings.HasPrefix(n, "X:ev") || strings.HasPrefix(n, "X:txn:") {
 			continue
 		}
 		cur := st.Heap[n]
@@ -1865,6 +1872,9 @@ func (s *Session) loopFrameObligations(fr *Frame, lf *loopFrame, st *State, cond
 		}
 		r := s.fresh("lfr", SInt)
 		conds := []T{Ge(r, I(1)), Le(r, lf.top)}
+		if strings.HasPrefix(n, "X:") {
+			conds = nil
+		}
 		for _, l := range lf.allowed[n] {
 			conds = append(conds, Not(Eq(r, l.ref)))
 		}
